@@ -148,7 +148,8 @@ def run(tier, replay=None):
     ck.proof(["props/C01.vo"], "props.C01",
              ["C01_implicit_return_partial", "C01_assign_in_branches_partial", "C01_operator_table",
               "C01_range_positive_step", "C01_question_refuted", "C01_inclusive_negative_step_refuted",
-              "C01_pure_expressions_partial", "C01_pure_expressions_convert"],
+              "C01_pure_expressions_partial", "C01_pure_expressions_convert",
+              "C01_simple_statements_partial"],
              translators=["names"])
     build_driver(ck.log)
     build_harness(ck.log)
